@@ -110,6 +110,13 @@ func init() {
 		j = mk("c18.ensureCapacity", rootPkg, "ZZ_C18_EnsureCapacity", map[string]int{"maxM": maxM}, func(b *Bounds) { b.ConcretiseMax = 300; b.Unwind = 12 })
 		j.Labels = []string{"c18.ensure.len", "c18.ensure.noshrink", "c18.ensure.zeroed"}
 		js = append(js, j)
+		hs := 4
+		if tier == "thorough" {
+			hs = 5
+		}
+		hj := mk(sprintf("c18.history.steps%d", hs), rootPkg, "ZZ_C18_History", map[string]int{"steps": hs}, func(b *Bounds) { b.Unwind = 12 })
+		hj.Labels = []string{"c18h.estimate_at_least_times_recorded_since_growth"}
+		js = append(js, hj)
 		for _, j := range js {
 			j.Prefer = "bits"
 		}
@@ -961,7 +968,24 @@ func init() {
 			return append(js, c)
 		}
 	}
-	registry["C04"] = gen("c04", "ZZ_C04_Sync", 4)
+	c04 := gen("c04", "ZZ_C04_Sync", 4)
+	registry["C04"] = func(tier string) []*Job {
+		js := c04(tier)
+		mid := 3
+		if tier == "thorough" {
+			mid = -1
+		}
+		// several writes of one key recorded before maintenance runs (asynchronous executor), then the drain: the bound
+		// and the running total the eviction loop is guarded by
+		for _, c := range []seqCfg{{"bs_max10_pending", 0, 0, 1, 10}, {"bw_w100_pending", 0, 0, 2, 100}} {
+			if tier == "quick" && c.bound == 2 {
+				continue
+			}
+			p := with(cfgParams(c.exp, c.ref, c.bound, c.max, 1, 0), "symtime", 1, "steps", 3, "nkeys", 2, "prefixset", 2, "opset", 0, "firstop", 0, "lastkeys", 1, "midset", mid)
+			js = append(js, mk("c04.pending."+c.name, rootPkg, "ZZ_C04_Pending", p, func(b *Bounds) { b.Unwind = 12; b.MaxPaths = 800000; b.MaxWallS = 1800 }))
+		}
+		return js
+	}
 	c05 := gen("c05", "ZZ_C05_Sync", 5)
 	registry["C05"] = func(tier string) []*Job {
 		js := c05(tier)
